@@ -76,6 +76,16 @@ TRUSTED = [
     "eigendecomposition_via calls in embed() of the three method classes and the routines' parameter names; "
     "obligation C08_method_calls_table; self-test in the thorough tier)",
     "g++ ASan/UBSan/_GLIBCXX_ASSERTIONS as the memory-safety observer (HLLE column bookkeeping, F6; eigenvalue slice, F7)",
+    "wave 4, null-space clauses (check_null_space) on the implementation's own matrix: M 1 = mu 1 and, on exactly flat "
+    "data, M x_t = mu x_t; tolerance 256 n k eps / (Gram-Schmidt conditioning of the columns the C++ starts from, replayed "
+    "in binary64 from the routine's own local eigenvectors; at least 1e-4) for constants, plus 256 n k eps max(|K_loc|, "
+    "top) / (smallest non-zero local eigenvalue) for the coordinates: rounding estimates, not theorems (measured head room "
+    "on HEAD about 1e3, evidence: largest_null_space_residual_over_tol); exact ranks of the neighbourhoods are computed "
+    "in Python on the integer coordinates",
+    "KLTSA after repair F51: the model of the repaired loop (Lle_Model.ltsa_run_gs; C08_ltsa_gs_fixes) is NOT executed "
+    "against the C++ (exact Gram-Schmidt on binary64 oracle vectors is too slow in extracted Qc); the executed model is "
+    "the loop-free formula, compared only where every selected local eigenvalue is non-zero (the loop is then a no-op up "
+    "to rounding: not proved); rank-deficient neighbourhoods are covered by the null-space clauses and end to end",
 ]
 
 ASSUMPTIONS = [
@@ -88,6 +98,11 @@ ASSUMPTIONS = [
     "and the case only feeds the non-uniqueness-tolerant clauses",
     "optimality over ALL orthonormal Y (Ky Fan) is proved from a FULL orthonormal eigendecomposition; that the "
     "solver's answer is one is the oracle contract",
+    "locally rank-deficient neighbourhoods (k neighbours spanning fewer than d directions: a straight whisker attached "
+    "to a flat sheet, exact duplicates on it) are INSIDE the property as far as it does not need uniqueness: constants "
+    "and the affine functions of the intrinsic coordinates stay in the null space of the alignment matrix, the "
+    "embedding is orthonormal, cost-minimal for the assembled matrix and affine on flat data; the alignment matrix "
+    "itself is not unique there (no entrywise comparison)",
 ]
 
 
@@ -1881,7 +1896,11 @@ def run(ctx):
              "to N-1, d 1..4, true k-NN and random neighbour lists incl. duplicates, d-flat data with integer "
              "intrinsic coordinates, the same flats shrunk along all but one intrinsic axis by 2^-10 .. 2^-16, copies "
              "of every stream with the kernel table scaled by 2^-60 .. 2^60, curved quadrics with reflection-symmetric "
-             "neighbourhoods (exact HLLE model at d = 2), malformed neighbour tables, N = d+1). evaluation = one harness case "
+             "neighbourhoods (exact HLLE model at d = 2), malformed neighbour tables, N = d+1; wave 4: exactly 2-flat sheets "
+             "with a straight whisker of more than k collinear samples (rank-deficient neighbourhoods, optionally exact "
+             "duplicates, optionally a common offset of 2^12 .. 2^20 in every ambient coordinate, strongly connected "
+             "neighbour graph) as routine calls and as embed() calls for HLLE and KLTSA, curved integer data with such "
+             "an offset). evaluation = one harness case "
              "(routine call or embed()) with all its comparisons; non-trivial = a case whose assembled matrix was "
              "compared entrywise with the exact model or whose embedding went through the extracted decision "
              "procedure; distinct by hash of the case.",
